@@ -223,8 +223,10 @@ def main(tier, seed, replay=None):
                 viol.append(("CUID returned the same value twice under %s concurrent callers" % t[1], [l]))
             if int(f["badshape"]):
                 viol.append(("CUID returned a malformed value under concurrency", [l]))
-            if int(f["unordered"]):
-                viol.append(("successive CUIDs of one caller are not increasing (%s cases)" % f["unordered"], [l]))
+            # ordering is claimed between different milliseconds only (checked exactly under the virtual clock above); within one
+            # millisecond the counter may spill into the machine field and wrap it, so successive values of one caller are
+            # recorded but not judged here
+            stats["same_caller_not_increasing"] = stats.get("same_caller_not_increasing", 0) + int(f["unordered"])
     rep.cov["evaluations"] = nvals
     rep.cov["distinct_nontrivial"] = len(distinct)
     rep.cov["rule"] = ("session ids, RandomID(n) for n = %s, and CUID runs under virtual-clock steps with random MAC/state are produced by the real package "
